@@ -523,6 +523,25 @@ func sameLocalNameInTwoWireFiles(name string) *spec.Spec {
 	return b.s
 }
 
+// unicodeTypeNames: exported type names whose first letter is not ASCII
+// (Überconfig, ΩService, Élan, Ñandú): the variable names derived from them
+// must still be identifiers.
+func unicodeTypeNames(name string, async bool) *spec.Spec {
+	b := newBuilder(name)
+	var params, provs []int
+	for k, n := range []string{"Überconfig", "ΩService", "Élan", "ÑandúRepo", "ÆØÅStore"} {
+		t := b.ptr(b.strct(n, ""))
+		provs = append(provs, b.fn(fmt.Sprintf("Provide%d", k), "", nil, []int{t}, async && k%2 == 0, k%3 == 0))
+		params = append(params, t)
+	}
+	app := b.ptr(b.strct("AppRoot", ""))
+	provs = append(provs, b.fn("NewAppRoot", "", params, []int{app}, false, false))
+	b.inject("InitializeAppRoot", app, provs...)
+	b.inject("BuildFromArguments", app, provs[len(provs)-1])
+	b.s.Features = append(b.s.Features, "type-names-starting-with-a-non-ascii-letter")
+	return b.s
+}
+
 // injectorNameForms: declarations whose injector name cannot become a
 // package-level function: used twice in one file (0) or in two files of one
 // package (4), equal to a function the user wrote (1), a keyword (2), not an
@@ -610,6 +629,7 @@ func corpusSpecs(prop string) []*spec.Spec {
 		fs = append(fs, suffixNamedFiles("kz"+prop[1:]+"s", false), suffixNamedFiles("kz"+prop[1:]+"a", true))
 		fs = append(fs, foreignCompositeKeys("kc"+prop[1:]+"s", false), foreignCompositeKeys("kc"+prop[1:]+"a", true))
 		fs = append(fs, spelledTwoWays("kt"+prop[1:]+"s", false), spelledTwoWays("kt"+prop[1:]+"a", true))
+		fs = append(fs, unicodeTypeNames("ku"+prop[1:]+"s", false), unicodeTypeNames("ku"+prop[1:]+"a", true))
 		fs = append(fs, dotImported("kd"+prop[1:]+"s", false), dotImported("kd"+prop[1:]+"a", true))
 		fs = append(fs, bindVariadic("kb"+prop[1:]+"s", false, false), bindVariadic("kb"+prop[1:]+"a", true, false), bindVariadic("kb"+prop[1:]+"t", false, true), bindVariadic("kb"+prop[1:]+"b", true, true))
 		if prop == "C04" {
